@@ -28,6 +28,10 @@ class Unsupported(Exception):
     pass
 
 
+class Raises(Exception):
+    """the function raises for a square COO argument"""
+
+
 class Seg:
     __slots__ = ('filt', 'val')
 
@@ -194,6 +198,8 @@ class Interp:
         if isinstance(n, ast.Name):
             if n.id in env:
                 return env[n.id]
+            if n.id in getattr(self, 'locals', ()):
+                raise Unsupported('local %s read before it is assigned' % n.id)
             return Opaque(n.id)
         if isinstance(n, ast.Tuple) or isinstance(n, ast.List):
             return tuple(self.ev(e, env) for e in n.elts)
@@ -209,7 +215,9 @@ class Interp:
                     return getattr(b, key)
                 if n.attr == 'shape':
                     return ('shape', b)
-                if n.attr in ('dtype', 'nnz'):
+                if n.attr == 'dtype':
+                    return ('dtype', b)
+                if n.attr == 'nnz':
                     return Opaque(n.attr)
             if isinstance(b, (Arr, View)):
                 if n.attr == 'shape':
@@ -219,6 +227,8 @@ class Interp:
                 if n.attr == 'dtype':
                     return Opaque('dtype')
             if isinstance(b, Opaque):
+                if b.what in self.fns:
+                    raise Unsupported('attribute of a function')
                 return Opaque(b.what + '.' + n.attr)
             raise Unsupported('attribute %s' % n.attr)
         if isinstance(n, ast.Compare) and len(n.ops) == 1:
@@ -226,6 +236,8 @@ class Interp:
             op = type(n.ops[0]).__name__
             if isinstance(l, (Arr, View)) or isinstance(r, (Arr, View)):
                 return _elementwise(lambda o, x, y: _cmp(op, x, y, o), l, r)
+            if isinstance(l, tuple) and isinstance(r, tuple) and len(l) == 2 and len(r) == 2 and l[0] == r[0] == 'dim' and l[1] is r[1]:
+                return op in ('Eq', 'GtE', 'LtE', 'Is')
             if not isinstance(l, (Opaque, Mat, tuple, Len)) and not isinstance(r, (Opaque, Mat, tuple, Len)):
                 if op in ('Is', 'IsNot'):
                     return (l is r) == (op == 'Is')
@@ -320,7 +332,11 @@ class Interp:
                 if b and b[0] in ('shape', 'ashape'):
                     if b[0] == 'ashape' and i == 0:
                         return b[1]
+                    if b[0] == 'shape' and i in (0, 1, -1, -2):
+                        return ('dim', b[1])          # square argument: both extents are the same unknown
                     return Opaque('shape[%d]' % i)
+                if not -len(b) <= i < len(b):
+                    raise Unsupported('tuple index out of range')
                 return b[i]
             raise Unsupported('tuple index')
         if isinstance(b, Opaque):
@@ -396,6 +412,14 @@ class Interp:
         args = [self.ev(a, env) for a in n.args]
         kw = {k.arg: self.ev(k.value, env) for k in n.keywords if k.arg}
         short = name.split('.')[-1] if name else None
+        if name and '.' in name and name.split('.')[0] in ('np', 'numpy') and name.count('.') == 1:
+            pass
+        elif name in ('len', 'isinstance', 'coo_matrix') or (isinstance(n.func, ast.Name) and n.func.id in self.fns):
+            pass
+        elif isinstance(n.func, ast.Attribute) and n.func.attr in ('copy', 'astype', 'tocoo'):
+            short = None
+        else:
+            raise Unsupported('call of %s' % name)
         if short in ('concatenate', 'hstack') and args and isinstance(args[0], tuple):
             segs = []
             for a in args[0]:
@@ -430,8 +454,8 @@ class Interp:
         if short == 'logical_and' and len(args) == 2:
             return _elementwise(lambda o, a, b: self._tb(a) and self._tb(b), args[0], args[1])
         if short == 'isinstance':
-            if isinstance(args[0], Mat):
-                return True          # the argument is taken in its normalised (coo) form
+            if isinstance(args[0], Mat) and len(args) == 2 and isinstance(args[1], Opaque) and args[1].what == 'coo_matrix':
+                return True          # the argument is taken in its normalised (coo) form; the other branch is checked in stmt()
             return Opaque('isinstance')
         if short == 'coo_matrix':
             if args and isinstance(args[0], Mat):
@@ -439,7 +463,11 @@ class Interp:
             if args and isinstance(args[0], tuple) and len(args[0]) == 2 and isinstance(args[0][1], tuple):
                 v, (r, c) = args[0][0], args[0][1]
                 shp = kw.get('shape', args[1] if len(args) > 1 else None)
-                ok = isinstance(shp, tuple) and shp and shp[0] == 'shape' and isinstance(shp[1], Mat)
+                ok = isinstance(shp, tuple) and len(shp) == 2 and shp[0] == 'shape' and isinstance(shp[1], Mat)
+                # dtype: left to scipy (that of the value array) or the argument's own; anything else changes the values
+                dt = kw.get('dtype', args[2] if len(args) > 2 else None)
+                ok = ok and (dt is None or (isinstance(dt, tuple) and len(dt) == 2 and dt[0] == 'dtype' and isinstance(dt[1], Mat)))
+                ok = ok and not (set(kw) - {'shape', 'dtype'})
                 return Result(v, r, c, ok)
             raise Unsupported('coo_matrix form')
         if isinstance(n.func, ast.Attribute) and n.func.attr == 'tocoo':
@@ -462,6 +490,7 @@ class Interp:
     # ---- statements
     def run(self, fn, args, kw):
         env = {}
+        self.locals = {x.id for x in ast.walk(fn) if isinstance(x, ast.Name) and isinstance(x.ctx, ast.Store)}
         params = [a.arg for a in fn.args.args]
         defaults = fn.args.defaults
         for p, d in zip(params[len(params) - len(defaults):], defaults):
@@ -477,6 +506,8 @@ class Interp:
         r = self.block(fn.body, env)
         if r is None:
             raise Unsupported('no return value')
+        if r[0] == 'raise':
+            raise Raises()
         return r[1]
 
     def block(self, body, env):
@@ -505,6 +536,12 @@ class Interp:
         if isinstance(st, ast.If):
             t = self.ev(st.test, env)
             if isinstance(t, bool):
+                if any(isinstance(x, ast.Call) and _dotted(x.func) == 'isinstance' for x in ast.walk(st.test)):
+                    # the branch for an argument that is not yet a coo_matrix may only convert it
+                    other = st.orelse if t else st.body
+                    e2 = dict(env)
+                    if self.block(other, e2) is not None or any(e2.get(k) is not env.get(k) for k in set(e2) | set(env)):
+                        raise Unsupported('the non-COO branch does more than convert the argument')
                 return self.block(st.body if t else st.orelse, env)
             # an undecidable guard is accepted only in front of a block that does nothing but raise
             if all(isinstance(x, ast.Raise) for x in st.body) and not st.orelse:
@@ -551,7 +588,10 @@ def contributions(tree, fname):
     """-> (per-ordering sorted list of (row, col, value) contributions with value != 0, shape_ok)"""
     fns = {n.name: n for n in tree.body if isinstance(n, ast.FunctionDef)}
     fn = fns[fname]
-    res = Interp(fns).run(fn, [Mat()], {})
+    try:
+        res = Interp(fns).run(fn, [Mat()], {})
+    except Raises:
+        return {o: [('raises',)] for o in ORD}, False
     if not isinstance(res, Result):
         raise Unsupported('the function does not return coo_matrix((v, (r, c)), ...)')
     for x in (res.v, res.r, res.c):
@@ -578,6 +618,8 @@ def expected(sign):
 
 def show(tr):
     def one(x):
+        if x == 'raises':
+            return 'raises for a square argument'
         if x == 'R':
             return 'row'
         if x == 'C':
@@ -587,4 +629,4 @@ def show(tr):
         if isinstance(x, tuple) and x[0] == 'k':
             return repr(x[1])
         return repr(x)
-    return '{' + ', '.join('(%s, %s, %s)' % tuple(one(y) for y in t) for t in tr) + '}'
+    return '{' + ', '.join(('(%s, %s, %s)' % tuple(one(y) for y in t)) if len(t) == 3 else one(t[0]) for t in tr) + '}'
